@@ -98,7 +98,38 @@ int main()
         std::string res;
         try
         {
-            if (t[0] == "argsort")
+            if (t[0] == "argsorts" || t[0] == "csorts")
+            {
+                // argsorts <e> <rule> <n> v1 .. vn / csorts <e> <rule> <n> re1 im1 ..: the same vectors scaled by 2^e (exact, order
+                // preserving for every key): keys whose squares or products under- or overflow must still order correctly
+                int e = std::stoi(t[1]), rule = std::stoi(t[2]), n = std::stoi(t[3]);
+                const double sc = std::ldexp(1.0, e);
+                if (t[0] == "argsorts")
+                {
+                    Eigen::VectorXd v(n);
+                    for (int i = 0; i < n; i++) v[i] = std::stod(t[4 + i]) * sc;
+                    std::vector<Eigen::Index> ind = argsort((SortRule) rule, v, (Eigen::Index) n);
+                    std::ostringstream o; o << "idx";
+                    for (auto i : ind) o << ' ' << i;
+                    res = o.str();
+                }
+                else
+                {
+                    std::vector<cd> v(n);
+                    for (int i = 0; i < n; i++) v[i] = cd(std::stod(t[4 + 2 * i]) * sc, std::stod(t[5 + 2 * i]) * sc);
+                    switch (rule)
+                    {
+                        case 0: res = csort<SortRule::LargestMagn>(v); break;
+                        case 1: res = csort<SortRule::LargestReal>(v); break;
+                        case 2: res = csort<SortRule::LargestImag>(v); break;
+                        case 4: res = csort<SortRule::SmallestMagn>(v); break;
+                        case 5: res = csort<SortRule::SmallestReal>(v); break;
+                        case 6: res = csort<SortRule::SmallestImag>(v); break;
+                        default: res = "ERROR rule not instantiable for complex values";
+                    }
+                }
+            }
+            else if (t[0] == "argsort")
             {
                 int rule = std::stoi(t[1]), n = std::stoi(t[2]);
                 Eigen::VectorXd v(n);
